@@ -245,6 +245,15 @@ def random_traces(run, n, rng, big):
                 k = rng.randint(1, len(stream))
             k = min(k, len(stream) - pos)
             before = len(top.got_up)
+            if t % 3 == 0 and rng.random() < 0.3:
+                # a redundant request (a connect request while connected, which the network layer ignores; an event of another layer's
+                # concern) passes by between two reads: the framing state of the live connection is not its business
+                from yowsup.layers import YowLayerEvent
+                from yowsup.layers.network import YowNetworkLayer
+                try:
+                    seg.onEvent(YowLayerEvent(rng.choice([YowNetworkLayer.EVENT_STATE_CONNECT, "org.openwhatsapp.yowsup.event.verif.unrelated"])))
+                except Exception as e:
+                    run.violation("recv:event-exception", "an event passing the segments layer raised %r" % (e,), {"kind": "random", "lens": lens})
             try:
                 seg.receive(stream[pos:pos + k])
             except Exception as e:
